@@ -437,6 +437,11 @@ func c18Constructors(c *Ctx) {
 				type errBlock struct {
 					b   *ssa.BasicBlock
 					isE func(ssa.Value) bool
+					isN func(ssa.Value) bool // the factory type's NumOut() (in a helper: the parameter it arrives in)
+				}
+				numOutCall := func(v ssa.Value) bool {
+					c2, _ := CallOfValue(v)
+					return c2 != nil && c2.Call.IsInvoke() && c2.Call.Method.Name() == "NumOut"
 				}
 				var errBlocks []errBlock
 				for _, b := range cl.Blocks {
@@ -450,7 +455,7 @@ func c18Constructors(c *Ctx) {
 					if !errEdge {
 						continue
 					}
-					errBlocks = append(errBlocks, errBlock{b, isE})
+					errBlocks = append(errBlocks, errBlock{b, isE, numOutCall})
 					for _, in := range b.Instrs {
 						hc, isC := in.(*ssa.Call)
 						if !isC || hc.Call.StaticCallee() == nil || len(hc.Call.StaticCallee().Blocks) == 0 || PkgOf(hc.Call.StaticCallee()) != PkgOf(cl) {
@@ -461,24 +466,33 @@ func c18Constructors(c *Ctx) {
 							if isE(a) && i < len(h.Params) {
 								p := ssa.Value(h.Params[i])
 								hE := func(v ssa.Value) bool { return SliceAny(v, func(r ssa.Value) bool { return r == p }) }
+								hN := func(v ssa.Value) bool {
+									if numOutCall(v) {
+										return true
+									}
+									for j, a2 := range hc.Call.Args {
+										if j < len(h.Params) && v == ssa.Value(h.Params[j]) && numOutCall(a2) {
+											return true
+										}
+									}
+									return false
+								}
 								for _, hb := range h.Blocks {
-									errBlocks = append(errBlocks, errBlock{hb, hE})
+									errBlocks = append(errBlocks, errBlock{hb, hE, hN})
 								}
 							}
 						}
 					}
 				}
 				for _, eb := range errBlocks {
-					b, isE := eb.b, eb.isE
+					b, isE, isN := eb.b, eb.isE, eb.isN
 					last := b.Instrs[len(b.Instrs)-1]
 					_ = isE
 					numOut := func(k int64) bool {
 						for _, f := range CmpFactsAt(last) {
 							if f.Op == token.EQL {
-								if kk, isK := ConstInt(f.Y); isK && kk == k {
-									if c2, _ := CallOfValue(f.X); c2 != nil && c2.Call.IsInvoke() && c2.Call.Method.Name() == "NumOut" {
-										return true
-									}
+								if kk, isK := ConstInt(f.Y); isK && kk == k && isN(f.X) {
+									return true
 								}
 							}
 						}
@@ -675,8 +689,27 @@ func c18Container(c *Ctx) {
 	isCall := func(in ssa.Instruction) bool {
 		return isReflectCallOn(in, func(r ssa.Value) bool { return IsFieldLoad(r, "defaultConfigContainer", "newValue") })
 	}
+	// (a zero config made by new() itself where no default-config func is registered: reflect.New / reflect.Zero on the
+	// edge on which newValue.IsValid() is false - the other reflect.New calls of new() only make a config addressable)
+	inlineZero := false
+	isInlineZero := func(in ssa.Instruction) bool {
+		cl, ok := in.(*ssa.Call)
+		if !ok || !MatchCC(&cl.Call, Spec{"reflect", "", "New"}, Spec{"reflect", "", "Zero"}) {
+			return false
+		}
+		for _, bf := range BoolFactsAt(in) {
+			if bf.Val {
+				continue
+			}
+			if c2, _ := CallOfValue(bf.Subj); c2 != nil && MatchCC(&c2.Call, Spec{"reflect", "Value", "IsValid"}) && IsFieldLoad(Strip(c2.Call.Args[0]), "defaultConfigContainer", "newValue") {
+				inlineZero = true
+				return true
+			}
+		}
+		return false
+	}
 	iv := PathQuery{Fn: nw, Weight: func(in ssa.Instruction) (int, int) {
-		if isCall(in) {
+		if isCall(in) || isInlineZero(in) {
 			return 1, 1
 		}
 		return 0, 0
@@ -765,7 +798,7 @@ func c18Container(c *Ctx) {
 	c.OK("O18.3", "core/plugin:no-config-cached-in-fields-or-globals", get.Pos(), fmt.Sprintf("%d stores of reflect.Value into fields/globals outside composite literals", nStores))
 	// the zero-config function: value created inside the MakeFunc closure
 	cl, _ := makeFuncClosure(ndc)
-	if cl == nil && hasZeroPath {
+	if cl == nil && (hasZeroPath || inlineZero) {
 		c.OK("O18.3", fk(nw)+":zero-config-created-per-call", nw.Pos(), "the default for constructors registered without a default-config func is created by new() itself with reflect.New / reflect.Zero in the call (counted above)")
 	} else if cl == nil {
 		c.Anchor("O18.3", "the reflect.MakeFunc closure of newDefaultConfigContainer")
